@@ -257,6 +257,13 @@ func layout(b []byte, off int, tbsOnly bool) (rawLayout, bool) {
 	i := 0
 	if len(ks) > 0 && ks[0].tag == 0xa0 {
 		i = 1
+		// Go's decoders (encoding/asn1 and the fork alike) step INTO an explicit wrapper and continue
+		// after the inner element without comparing the wrapper's declared length with it.  When the
+		// two disagree the bytes have no single reading: this walker then establishes no layout (the
+		// sub-slice check is still made).
+		if inner, ok := readTLV(b[:ks[0].end()], ks[0].off+ks[0].hdr); !ok || inner.end() != ks[0].end() {
+			return l, false
+		}
 	}
 	if len(ks) < i+6 {
 		return l, false
@@ -837,6 +844,7 @@ func (rn *runner) mutate(b []byte, donors [][]byte) ([]byte, []string) {
 func main() {
 	flag.Parse()
 	rn := &runner{w: lib.NewWriter(header, 400), r: lib.Rand()}
+	defer rn.w.Guard()
 	docs := loadPEMDocs()
 	gd := generatedDocs()
 	docs = append(docs, gd...)
@@ -853,6 +861,10 @@ func main() {
 	docs = append(docs, bare...)
 	for _, d := range bare {
 		rn.bare = append(rn.bare, d.der)
+	}
+	// documents with strings of every type in names, alternative names, qualifiers, attributes
+	if len(donors) > 0 {
+		docs = append(docs, stringDocs(donors[0])...)
 	}
 	// TBS documents from the certificates
 	var tbsDocs []doc
@@ -1001,6 +1013,9 @@ func main() {
 
 	// 5. conformance (ii)
 	rn.conformance()
+
+	// 6. every string / time tag on every string-valued node, all length classes (strtag.go)
+	rn.stringRetagStream(byKind)
 
 	rn.w.Close()
 	fmt.Printf("c11: %d cases\n", rn.w.Len())
